@@ -13,6 +13,7 @@ model and prints the outcome that the same forced schedule must produce on the r
 -/
 namespace Hive.WP
 
+
 structure DrvSt where
   cancel : Bool := false
   mon : Option Mon := some Mon.init
@@ -103,6 +104,7 @@ def stepLine (s : DrvSt) (toks : List String) : DrvSt × String :=
     | some m => (s, if quietOk s.cancel m then "accept" else "reject quiet")
     | none => (s, "reject trace")
   | ["end"] => (s, if s.mon.isSome then "accept" else "reject trace")
+  | ["taskpanic", _, _] => (s, taskPanicOutcome)
   | ["sched", name] =>
     match scenarios.find? (fun sc => sc.name == name) with
     | some sc => (s, outcome sc.final)
